@@ -17,6 +17,10 @@ pub(crate) const MAX_CONCURRENT_REQS: usize = 8;
 type Result<T, E = P2pError> = std::result::Result<T, E>;
 type TaskResult = (u64, u64, Result<Vec<ExtendedHeader>>);
 
+#[cfg(eigerco_lumina_verif)]
+#[path = "header_session_verif_hooks.rs"]
+pub(crate) mod verif_hooks;
+
 pub(crate) struct HeaderSession {
     to_fetch: Option<BlockRange>,
     cmd_tx: mpsc::Sender<P2pCmd>,
